@@ -141,7 +141,7 @@ def run_mixture(case, R):
         for rep in range(3):
             rr = np.random.default_rng([*case['rs'], 7, rep])
             dd = dict(s.data)
-            dd['y'] = s.data['y'] * (1 + 2.0 ** -50 * rr.uniform(-1, 1, size=s.data['y'].shape))
+            dd['y'] = (s.data['y'] * (1 + 2.0 ** (-50 if s.data['y'].dtype == np.complex128 or s.data['y'].dtype == np.float64 else -21) * rr.uniform(-1, 1, size=s.data['y'].shape))).astype(s.data['y'].dtype)      # a few ulps of the data's own precision
             out = run(dd)
             if out[0] != 'ok' or res[0][0] != 'ok':
                 continue
@@ -191,7 +191,7 @@ def run_mixture(case, R):
         for rep in range(4):
             rr = np.random.default_rng([*case['rs'], 5, rep])
             dd = dict(s.data)
-            dd['y'] = s.data['y'] * (1 + 2.0 ** -50 * rr.uniform(-1, 1, size=s.data['y'].shape))
+            dd['y'] = (s.data['y'] * (1 + 2.0 ** (-50 if s.data['y'].dtype == np.complex128 or s.data['y'].dtype == np.float64 else -21) * rr.uniform(-1, 1, size=s.data['y'].shape))).astype(s.data['y'].dtype)      # a few ulps of the data's own precision
             flips += run(dd)[0] != res[0][0]
         exc = res[0][1] if res[0][0] == 'raised' else res[1][1]
         msg = res[0][2] if res[0][0] == 'raised' else res[1][2]
